@@ -108,6 +108,180 @@ CHECKS = {
             'exact reference Jacobian; jtvec(weighted residual) = gradient.',
             'Model grid 4^3, computational grids 8^3; exact-solve mode '
             '(1e-8) plus real-solver subset (2e-6).', '3/C08'),
+    'C06': ('E1', 'exploration',
+            'complete enumeration of a finite deterministic configuration '
+            'set (sizes x cycles x media x domains x smoothing counts); '
+            'measured reduction factors against calibrated bounds',
+            'Stand-alone multigrid on uniform grids 8^3..32^3 (thorough: '
+            '64^3, 128^3 and non-cubic shapes) for cycle F/V/W x isotropic / '
+            'triaxial x frequency / Laplace x (nu_pre, nu_post): rate(n) <= '
+            '1.5 rate(16^3) + 0.02, rate <= 1.5 x pinned, cycles <= pinned '
+            '+ 3, exit 0. A measurement against thresholds calibrated on the '
+            'pinned tree (mc/checks/c06_table.json), not an invariant: '
+            'claimed as exploration.',
+            'Trusted: the calibration table (pinned tree, 1.5x margin).',
+            '3/C06'),
+    'C09': ('E1', 'model_checking',
+            'bounded exhaustive enumeration of receiver / source positions '
+            'x orientations on small stretched grids; full edge basis '
+            'through the real get_receiver vs real point-source vectors vs '
+            'independent trilinear / Faraday references; all ordered pairs '
+            'for reciprocity',
+            'Position alphabet {node, centre, 0.3 cell} per axis over all '
+            'interior cells x 30 angle pairs x 2 grids; the receiver '
+            'functional is obtained completely (full basis), so the '
+            'transpose identity holds for all fields; NaN policy on 2744 '
+            'positions per case incl. one ulp either side of the node '
+            'planes; reciprocity for all ordered pairs of 30 antennas x '
+            'models x {E-E, H-H} in exact mode, plus real-solver subset with '
+            'an a-posteriori residual bound.',
+            'Trusted: own trilinear weights, reference curl (fit.py), '
+            'sparse LU. mu_r != 1 magnetic sources are outside the '
+            'property (documented as not implemented).', '3/C09'),
+    'C10': ('E1', 'model_checking',
+            'bounded exhaustive enumeration of electrode positions: all '
+            'ordered pairs of a position alphabet as dipoles, all simple '
+            'paths as wires, point sources over position x angle alphabets; '
+            'oracle from own segment/cell clipping',
+            'Quick: 19.5k dipoles, 22k wires, 5.8k points, conversions, '
+            'magnetic loops on two stretched grids x strengths x '
+            'frequency/Laplace/None: component sums = electrode vector, '
+            'support within touched cells, length-fraction distribution, '
+            'field = vector x strength x (-s mu0), conversion round trips, '
+            'loop geometry.',
+            'Trusted: own Liang-Barsky clipping and trilinear weights. '
+            'Position/angle alphabets.', '3/C10'),
+    'C11': ('E3', 'model_checking',
+            'stateless DFS over ALL completion orders of the tasks of a '
+            'process_map call on a virtual process pool (model of '
+            'concurrent.futures semantics), per max_workers / run kind / '
+            'file mode / backend, every schedule a complete run of the real '
+            'Simulation code; conformance runs on real process pools with '
+            'forced completion orders',
+            'For max_workers in {1,2,3,4,16} (thorough 1..16) x {forward, '
+            'back-propagation, jvec} x {memory, file_dir} x {tqdm, plain}: '
+            'all feasible completion orders (up to 24 for 4 tasks, 720 for '
+            '6) of the varied call, the full product over all calls for '
+            'max_workers=2; oracle: bit-identity of all fields, data, '
+            'misfit, gradient, jvec with the sequential run and after '
+            'repeating the computation.',
+            'Trusted: mc/refmodel/executor.py (pool model; tasks share one '
+            'interpreter: over-approximation). Real pools only on forced '
+            'orders of 4 tasks.', '3/C11'),
+    'C12': ('E2', 'model_checking',
+            'explicit-state breadth-first search over all operation '
+            'histories up to a depth (28 operations) with canonical-state '
+            'merging; fresh real Simulation per history; differential '
+            'oracle against a freshly created simulation',
+            'Quick: all histories of depth <= 3 (P1, memory), <= 2 (P2 '
+            'triaxial LgConductivity; P1 file_dir) over {compute, misfit, '
+            'gradient, jvec, jtvec, get_efield, get_hfield, clean x3, copy '
+            'x4, dict x4, file x9, model update}; every history is closed '
+            'by the probes synthetic/misfit/gradient; copies and reloads '
+            'continue after their original was mutated and wiped. Thorough: '
+            'one level deeper.',
+            'State merging is sound if the canonical key covers everything '
+            'the methods read (enumerated from the source). Histories '
+            'bounded; in-place edits of arrays not in the alphabet.',
+            '3/C12'),
+    'C13': ('E1+E2', 'model_checking',
+            'full product of survey shapes x noise forms x NaN masks '
+            'against a NumPy reference of the noise model (E1) and BFS over '
+            'operation histories on real Surveys with a last-assigned-'
+            'values record (E2)',
+            '8748 formula cases (27 shapes x 6x6 noise forms x std modes x '
+            'NaN masks, misfit through the real Simulation.misfit, all axis '
+            'permutations) and all histories up to depth 3 (20 operations: '
+            'add_noise variants, select subsets, copy, dict and h5/npz/json '
+            'round trips, assignments) from three start states; after '
+            'every step noise settings of the survey and of every original '
+            'it derives from equal the last assigned values.',
+            'Trusted: mc/refmodel/noise.py. Randomness seeded through '
+            'numpy.random.default_rng.', '3/C13'),
+    'C14': ('E1', 'model_checking',
+            'full products over conductivities x mappings x anisotropy x '
+            'mu_r/eps_r x domain; rejection table; solver/simulation '
+            'invariance across all six mappings',
+            '49 conductivities over 12 decades x 6 mappings (round trips, '
+            'analytic and difference-quotient chain rule), 9600 VolumeModel '
+            'coefficient comparisons against widths/constants, 4434 '
+            'rejection-table entries (construction and assignment, all bad '
+            'value tokens), and fields/data/gradient equal across mappings '
+            'and equal to a direct solve of the reference operator.',
+            'Trusted: analytic mappings, reference FIT operator.', '3/C14'),
+    'C15': ('E1', 'model_checking',
+            'all ordered pairs of 1-D node sets (all subsets of a lattice) '
+            'through the real 3-D routine per direction, 3-D products of '
+            'selected pairs; full unit bases give the complete averaging '
+            'matrix',
+            '14400 ordered pairs of the 120 node subsets of {0..6} in each '
+            'direction + 1728 3-D products: F equals the exact overlap '
+            'reference, rows convex, integral conserved, identity, equals '
+            'discretize.volume_average, the adjoint routine equals F^T; log '
+            'mode consistency; Model.interpolate_to_grid across mappings.',
+            'Trusted: mc/refmodel/volavg.py (two formulations '
+            'cross-checked).', '3/C15'),
+    'C16': ('E1', 'model_checking',
+            'deviation-bounded lattice (depth 3/4) and sub-products over '
+            'the 15 parameters of origin_and_widths, format lattice of '
+            'construct_mesh, estimate_gridding_opts cases; postconditions '
+            'recomputed from the documented definitions',
+            '14.9k quick cases (12.9k meshes, 0.9k loud failures, 1.1k '
+            'documented rejections): permitted cell count, positive widths, '
+            'survey and computational domain covered, stretching bounds, '
+            'centre rule, vector nodes, sea surface node-or-warning, '
+            'failure => RuntimeError only, plus a converse guard (no '
+            'failure when an admissible mesh provably exists).',
+            'Trusted: own skin-depth/wavelength/cell-number definitions '
+            'from the docstrings; documented relaxations listed in the '
+            'module.', '3/C16'),
+    'C17': ('E1+E2', 'model_checking',
+            'object zoo (every registered class x variants) x formats, and '
+            'all conversion chains up to a length from every initial '
+            'format; structural, attribute-view and behavioural equality',
+            '176 objects x {h5, npz, json} (+ to_file/from_file) and all '
+            '4224 convert chains of length 3; content compared after every '
+            'step (classes, keys, shapes, dtypes, values NaN-aware, scalar '
+            'kinds), __eq__, and misfit/gradient of reloaded simulations.',
+            'Python and NumPy scalars of the same kind, and 0-d arrays, '
+            'count as equal scalars. Three open findings (npz empty dicts, '
+            'json zero-size arrays, receiver-less survey).', '3/C17'),
+    'C18': ('E1', 'model_checking',
+            'lattice over all 58 documented configuration keys (every key '
+            'alone with every value; pairs in thorough) and flags, CLI run '
+            'in-process vs checker-built equivalent API sequence',
+            'Every documented key x 1-3 values x function x format '
+            '(rotated), dry-run+save comparison of the saved simulation, '
+            'precedence for all 9 options available both ways, unknown '
+            'keys/flags rejected in all 7 sections, load/save/cache/clean '
+            'sequences; data, misfit, gradient, n_observations equal to '
+            '1e-12 with identical NaN pattern. The key table is parsed from '
+            'docs/manual/cli.rst at start.',
+            'Seams: seeded default_rng, in-process pool stand-in, memoised '
+            'Report. Reference = typed reading of the documented syntax.',
+            '3/C18'),
+    'C19': ('E1', 'model_checking',
+            'deviation-bounded lattice (depth 2/3) over 17 parameters of '
+            'layered simulations; responses vs direct empymod calls, '
+            'extraction weights vs own ellipse reference, FD gradient vs '
+            'fresh perturbed simulations',
+            '808 forward cases (6192 src-rec pairs) to 1e-10, NaN pattern, '
+            'independence of method/ellipse, 72k extractions (imat >= 0, '
+            'sum 1, support), 91 gradient cases per z-cell slab (1e-6 in '
+            'conductivity).',
+            'Trusted: empymod as the 1D reference modeller (per the '
+            'property), own layering read-off.', '3/C19'),
+    'C20': ('E1', 'model_checking',
+            'full product time vectors x bands (incl. fmin/fmax exactly on '
+            'required frequencies) x signals x transforms x coarse options '
+            'x spectra; setter histories up to length 2',
+            '8019 fill cases (98k spectra, 42k transforms): partition, '
+            'band, pass-through (bit-identical), spline / PCHIP references, '
+            'zeros above fmax, monotone extrapolation, freq2time bit-'
+            'identical to empymod.model.tem of the filled spectrum; '
+            'exclusivity warning; 420 setter sequences equal fresh objects.',
+            'Trusted: empymod.utils.check_time / model.tem as reference '
+            'transform (per the property).', '3/C20'),
 }
 
 NOT_YET = "check not built yet in this round (planned in DESIGN.md section 3)"
